@@ -407,6 +407,15 @@ func runC16(r *vf.Runner) {
 		u := u
 		r.Case(map[string]any{"kind": "unencodable", "value": u.name}, func(t *vf.T) { runC16unencodable(t, u.name, u.v, bm2) })
 	}
+	for gi, g := range genC16graphs(r.Quick()) {
+		g := g
+		g.Fresh = "scale"
+		r.Case(map[string]any{"kind": "graph", "graph": g}, func(t *vf.T) { runC16graph(t, g) })
+		if !r.Quick() || gi%4 == 1 {
+			g.Fresh = "kill"
+			r.Case(map[string]any{"kind": "graph", "graph": g}, func(t *vf.T) { runC16graph(t, g) })
+		}
+	}
 	maxLen := 4
 	if !r.Quick() {
 		maxLen = 5
@@ -415,4 +424,119 @@ func runC16(r *vf.Runner) {
 		fl := fl
 		r.Case(map[string]any{"kind": "diff", "maxlen": maxLen, "first_list_len": fl}, func(t *vf.T) { runC16diff(t, maxLen, fl) })
 	}
+}
+
+// c16graph: a graph of Results that feed later Funcs, the last of which is evaluated on workers
+// that have compiled none of the earlier invocations (machines started for its extra shards, or
+// replacements for machines killed just before). Such a worker is sent the invocation together
+// with every invocation its Result arguments came from, and must be able to resolve each one.
+type c16graph struct {
+	Links [][2]int `json:"links"` // link i is a Func over results Links[i][0] and Links[i][1] (0 is the base)
+	Fresh string   `json:"fresh"` // scale: the last Func has more shards than machines are running; kill: every machine is killed before it
+}
+
+func runC16graph(t *vf.T, c c16graph) {
+	conf := sessConf{Kind: "bigmachine", P: 6, MachProcs: 1, MaxLoad: 0.95, Keepalive: 50}
+	ls := startSession(conf)
+	defer ls.Close()
+	run := fmt.Sprintf("c16g-%d", t.Index())
+	defer func() {
+		probes.Range(func(k, _ any) bool {
+			if strings.HasPrefix(k.(string), run) {
+				probes.Delete(k)
+			}
+			return true
+		})
+	}()
+	sig := fmt.Sprintf("graph fresh=%s", c.Fresh)
+	base := Spec{Run: run + "-base", Nodes: []PNode{{Op: "const", Shards: 1, Rows: 40, Out: []string{"int", "int64"}, Salt: 3, Mod: 10}}}
+	want0, _, err := evalSpec(&base, nil)
+	if err != nil {
+		t.Inconclusive("reference evaluator: " + err.Error())
+		return
+	}
+	o := runSpec(ls, base, [2]bigslice.Slice{}, true, 120*time.Second)
+	if o.TimedOut || o.RunErr != nil || o.ScanErr != nil || o.Panic != nil {
+		t.Inconclusive(fmt.Sprintf("base run: timeout=%v run=%v scan=%v panic=%v", o.TimedOut, o.RunErr, o.ScanErr, o.Panic))
+		return
+	}
+	results := []*exec.Result{o.Res}
+	rels := []*rel{want0}
+	for i, l := range c.Links {
+		top := i == len(c.Links)-1
+		sp := Spec{Run: fmt.Sprintf("%s-l%d", run, i), Nodes: []PNode{
+			{Op: "arg", Arg: 0}, {Op: "arg", Arg: 1},
+			{Op: "cogroup", In: []int{0, 1}},
+			{Op: "map", In: []int{2}, Out: []string{"int", "int64"}, Src: []int{0, -1}, Mod: 7, Salt: uint64(11 + i)},
+		}}
+		if top {
+			sp.Nodes = append(sp.Nodes, PNode{Op: "reshard", In: []int{3}, Shards: 6})
+		}
+		want, _, err := evalSpec(&sp, []*rel{rels[l[0]], rels[l[1]]})
+		if err != nil {
+			t.Inconclusive("reference evaluator: " + err.Error())
+			return
+		}
+		killed := 0
+		if top && c.Fresh == "kill" {
+			for k := 0; k < 20 && ls.Sys.Kill(nil); k++ {
+				killed++
+			}
+			t.Count("graph_machines_killed", int64(killed))
+		}
+		compiles := ls.IP.count("Worker.Compile")
+		o := runSpec(ls, sp, [2]bigslice.Slice{results[l[0]], results[l[1]]}, true, 120*time.Second)
+		switch {
+		case o.TimedOut:
+			t.Inconclusive("watchdog in a graph run")
+			return
+		case o.Panic != nil:
+			t.Violate(sig+" panic:"+o.PanicAt, fmt.Sprintf("%v", o.Panic))
+			return
+		case o.RunErr != nil || o.ScanErr != nil:
+			e := o.RunErr
+			if e == nil {
+				e = o.ScanErr
+			}
+			if killed > 0 && isGiveUp(e) {
+				t.Count("graph_give_ups_after_kill", 1)
+				return
+			}
+			t.Violate(sig+" run-failed", fmt.Sprintf("Func %d over results %v of the graph %v failed: %v | library log: %s", i+1, l, c.Links, e, logTail(12)))
+			return
+		}
+		if d := compareResult(o.Rows, want); d != "" {
+			t.Violate(sig+" rows-differ", fmt.Sprintf("Func %d over results %v of the graph %v: %s", i+1, l, c.Links, d))
+			return
+		}
+		if top {
+			t.Count("graph_compile_rpcs_for_last_func", int64(ls.IP.count("Worker.Compile")-compiles))
+		}
+		results = append(results, o.Res)
+		rels = append(rels, want)
+	}
+	t.Count("result_graphs_evaluated_on_fresh_workers", 1)
+	t.Nontrivial("")
+}
+
+func genC16graphs(quick bool) (out []c16graph) {
+	var rec func(links [][2]int, n int)
+	rec = func(links [][2]int, n int) {
+		if len(links) == n {
+			out = append(out, c16graph{Links: append([][2]int{}, links...)})
+			return
+		}
+		k := len(links) + 1 // results available: 0..k-1
+		for a := 0; a < k; a++ {
+			for b := 0; b < k; b++ {
+				rec(append(links, [2]int{a, b}), n)
+			}
+		}
+	}
+	rec(nil, 2)
+	rec(nil, 3)
+	if !quick {
+		rec(nil, 4)
+	}
+	return
 }
